@@ -12,7 +12,6 @@ fn main() {
         "check" => {
             let prop = args[2].clone();
             let tier = args.get(3).cloned().unwrap_or_else(|| "quick".into());
-            std::env::set_var("SEQ_TIER", &tier);
             let seed = driver::seed_from_env();
             let workers: u64 = std::env::var("VERIF_WORKERS").ok().and_then(|s| s.parse().ok()).unwrap_or(16);
             let base: u32 = if tier == "thorough" { 1_000_000 } else { 40_000 };
@@ -43,7 +42,6 @@ fn main() {
         "worker" => {
             let prop = &args[2];
             let tier = &args[3];
-            std::env::set_var("SEQ_TIER", tier);
             let seed: u64 = args[4].parse().unwrap();
             let worker: u64 = args[5].parse().unwrap();
             let cases: u32 = args[6].parse().unwrap();
